@@ -21,12 +21,12 @@ def configs(tier):
 
 def kani_kernels(c):
     from kani import gen
-    hs = ['c07_xmlns_4', 'c07_remove_namespace_1', 'c07_remove_namespace_2', 'c07_remove_namespace_3', 'c07_remove_namespace_4']
-    if c.tier == 'thorough': hs += ['c07_xmlns_6', 'c07_remove_namespace_5']
+    hs = ['c07_xmlns_7', 'c07_remove_namespace_1', 'c07_remove_namespace_2', 'c07_remove_namespace_3', 'c07_remove_namespace_4']
+    if c.tier == 'thorough': hs += ['c07_xmlns_8', 'c07_remove_namespace_5']
     rep = {'harnesses': []}
     sc = gen.make_scratch(which=('element.rs',))
     try:
-        res, wall, out = gen.run_batch(sc, hs, jobs=len(hs), timeout=900 if c.tier == 'quick' else 3000, mem_gb=40)
+        res, wall, out = gen.run_batch(sc, hs, jobs=len(hs), timeout=1200 if c.tier == 'quick' else 3000, mem_gb=40)
         rep['wall_s'] = wall
         for h in hs:
             r = res[h]
@@ -38,11 +38,11 @@ def kani_kernels(c):
                 # a failing kernel is confirmed natively by brute force over the (small) byte bound before it is reported
                 n = int(h.rsplit('_', 1)[1]); hit = None
                 import itertools
-                alphabet = [0x3a, 0x61, 0xc3, 0xa9, 0xe2, 0x82, 0xac, 0x78]
-                for L in range(n + 1):
-                    for bs in itertools.product(alphabet, repeat=L):
-                        try: s = bytes(bs).decode('utf-8')
-                        except UnicodeDecodeError: continue
+                chars = ['a', ':', '\u00e9', '\u20ac']
+                for L in range(1, 8):
+                    for cs_ in itertools.product(chars, repeat=L):
+                        s = ''.join(cs_)
+                        if len(s.encode()) > n or s[0] == ':': continue
                         nat = c.replay.ask({'op': 'render', 'docs': ['<r %s="v"><%s/></r>' % (s, s)] if False else [{'hex': ('<r><a %s="v"/></r>' % s).encode().hex()}], 'options': [{}]})
                         if 'panic' in nat or 'crash' in nat: hit = (s, nat); break
                     if hit: break
@@ -74,12 +74,16 @@ def main():
         'NOT APPLICABLE parts: bytes -> events and BufRead chunking are quick_xml (Kani stops at inline asm; a model of its tokenizer would not be the real code); stack exhaustion at depth 200 is a property of the machine stack, exercised natively only',
         'termination: every loop of the executed code is bounded by the script / tree size; the executor reports fuel exhaustion as inconclusive (none on the unchanged tree)',
     ]
+    import threading
+    kt = None
+    if not c.args.only or 'kani' in c.args.only:
+        kt = threading.Thread(target=kani_kernels, args=(c,)); kt.start()          # CBMC runs beside the rsym exploration
     if c.setup():
         for label, kw in configs(c.tier):
             c.run(label, 'rsym.he', 'PanicFree', kw, time_cap=200 if c.tier == 'quick' else 3000)
         native_bytes(c, 150 if c.tier == 'quick' else 2000)
-    if not c.args.only or 'kani' in c.args.only: kani_kernels(c)
-    c.finish(bounds={'scripts': [l for l, _ in configs(c.tier)], 'kani': 'starts_with_xmlns: all UTF-8 strings <= 4 (thorough: 6) bytes; remove_namespace: all UTF-8 strings of 1..4 (thorough: 5) bytes'},
+    if kt is not None: kt.join()
+    c.finish(bounds={'scripts': [l for l, _ in configs(c.tier)], 'kani': 'starts_with_xmlns: all UTF-8 strings <= 7 (thorough: 8) bytes; remove_namespace: all UTF-8 strings of 1..4 (thorough: 5) bytes'},
              outside=['byte-level tokenising, BufRead chunk sizes, reader flags below the event interface (quick_xml)', 'stack depth', 'names longer than the Kani byte bound / outside the adversarial pool for whole-pipeline runs'],
              trusted=['rsym + models', 'z3', 'Kani/CBMC', 'tools/replay'],
              technique='symbolic execution over arbitrary reader-event sequences (panic outcomes are path results) + Kani bounded model checking of the string-slicing kernels')
